@@ -89,25 +89,26 @@ class FwdModel:
         return self.alphabet
 
     def apply(self, w, ev):
-        kind, src, sn, rhl = ev
+        kind, src, sn, rhl = ev[:4]
+        skew = ev[4] if len(ev) > 4 else 0          # source clock ahead of the receiver's by skew ms
         f = w.stations["F"]
         w.sent.clear()
         f.gn_indications.clear()
-        pkt = mk_packet(kind, src, sn, rhl, w.now, lt=(rhl * 37 + 5) % 256 if self.vary_lt else None)
+        pkt = mk_packet(kind, src, sn, rhl, w.now, tst_off=skew, lt=(rhl * 37 + 5) % 256 if self.vary_lt else None)
         w.last_pkt = pkt
         w.exp = w.ref.step(kind, src, sn, rhl)
         w.inject("F", pkt)
         return None
 
     def check(self, w, ev, obs, hist):
-        kind, src, sn, rhl = ev
+        kind, src, sn, rhl = ev[:4]
         out = []
         if isinstance(obs, tuple) and obs and obs[0] == "EXC":
             return [dict(kind="exception", pkt=kind, src=src, rhl=rhl, exc=obs[1] + ":" + obs[2])]
         f = w.stations["F"]
         exp = w.exp
         pkt = w.last_pkt
-        base = dict(pkt=kind, src=src, sn=sn, rhl=rhl, why=exp["why"])
+        base = dict(pkt=kind, src=src, sn=sn, rhl=rhl, why=exp["why"], skew_ms=ev[4] if len(ev) > 4 else 0)
         inds = f.gn_indications
         if len(inds) != (1 if exp["deliver"] else 0):
             out.append(dict(kind="deliver_count", got=len(inds), expected=int(exp["deliver"]), **base))
@@ -398,6 +399,8 @@ def run(ctx):
     # ---- part 1A: DPD window logic (sources x SNs incl. wrap x DPL lengths) -------------------
     alpha_a = [(k, s, sn, 3) for k in ("tsb", "gbc_in") for s in ("S1", "S2") for sn in (0, 1, 2, 65535)]
     alpha_a += [("guc_d", "S1", 1, 3), ("lsq_d", "S1", 2, 3), ("tsb", "F", 1, 3)]
+    # the same packets from a source whose clock runs 1 ms / 150 ms ahead of the receiver's (duplicate detection must not care)
+    alpha_a += [("tsb", "S2", 1, 3, 150), ("gbc_in", "S2", 1, 3, 150), ("tsb", "S2", 2, 3, 1), ("guc_d", "S2", 1, 3, 150)]
     depth_a = 5 if not thorough else 7
     for L in (1, 2, 3) if not thorough else (1, 2, 3, 8):
         r = X.parallel_bfs(_mk_fwd, (alpha_a, L), depth_a, split_depth=1)
